@@ -5,6 +5,7 @@ import (
 	"fmt"
 	"math/big"
 	"sort"
+	"strings"
 
 	abci "github.com/cometbft/cometbft/abci/types"
 
@@ -185,6 +186,11 @@ func (m *monValset) AfterBlock(c *Chain, req *abci.RequestFinalizeBlock, res *ab
 				}
 				if mustFail && o.OK() {
 					w.Violation("C03", "opt-out-accepted-at-or-above-threshold", map[string]any{"consumer": t.ConsumerId, "val": w.valName(v.ConsAddr()), "power": power, "m": snap.M})
+				}
+				if !o.OK() && strings.Contains(o.Result.Log, "validator does not exist") {
+					// the operator's validator was removed from x/staking: nothing to opt out, not a threshold decision
+					w.Event("C03", "optout-attempts-of-removed-validators")
+					continue
 				}
 				if !mustFail && !o.OK() && snap.TopN > 0 && snap.HasM {
 					w.Violation("C03", "opt-out-rejected-below-threshold", map[string]any{"consumer": t.ConsumerId, "val": w.valName(v.ConsAddr()), "power": power, "m": snap.M, "log": o.Result.Log})
